@@ -79,6 +79,10 @@ func arithCheck(r *core.Run, curves []*curveCtx) {
 		}
 		n := len(nps)
 		ks := append(scalars(cv, r.Tier), longScalars(cv)...)
+		ksSnap := make([]*big.Int, len(ks))
+		for si, k := range ks {
+			ksSnap[si] = new(big.Int).Set(k.v)
+		}
 		r.Set("arith_points_"+cv.name, n)
 		r.Set("arith_scalars_"+cv.name, len(ks))
 
@@ -275,6 +279,17 @@ func arithCheck(r *core.Run, curves []*curveCtx) {
 				r.Violate("law/distributivity-scalars/"+cv.name, fmt.Sprintf("(k1+k2)P != k1P+k2P or differs from the reference (error: %v)", e), rec)
 			}
 		})
+		// the operand points and scalars were shared by every call above: none of them may have changed
+		for i, np := range nps {
+			if !eqRef(cv, lib[i], np.pt) {
+				r.Violate("purity/operand-point-modified/"+cv.name, "an arithmetic call changed one of its operand points", map[string]interface{}{"point": np.name})
+			}
+		}
+		for si, k := range ks {
+			if k.v.Cmp(ksSnap[si]) != 0 {
+				r.Violate("purity/operand-scalar-modified/"+cv.name, "an arithmetic call changed its scalar argument", map[string]interface{}{"scalar": k.name})
+			}
+		}
 	}
 }
 
